@@ -112,9 +112,12 @@ func newFakeConsul() *fakeConsul {
 // and closes the server. httptest.Server.Close waits for outstanding requests, so a simulator that
 // is given up while requests are parked must let them go first.
 func (f *fakeConsul) shutdown() {
-	f.quitOnce.Do(func() { close(f.quit) })
+	f.release()
 	f.srv.Close()
 }
+
+// release answers every parked request — and every later one — with 500, the server stays up.
+func (f *fakeConsul) release() { f.quitOnce.Do(func() { close(f.quit) }) }
 
 func (f *fakeConsul) addr() string { return strings.TrimPrefix(f.srv.URL, "http://") }
 
